@@ -65,7 +65,7 @@ func (p Program) String() string { b, _ := json.Marshal(p); return string(b) }
 // one unsynchronised word per worker group; the map is built before any service starts and only read afterwards
 var scratch = func() map[string]*int {
 	m := map[string]*int{}
-	for _, g := range []string{"shared", "gx", "svc.bq"} {
+	for _, g := range []string{"shared", "gx", "svc.bq", "tg.a", "tg.b"} {
 		m[g] = new(int)
 	}
 	for _, p := range []string{"svc.r.", "svc.ms.", "svc.bs.", "svc.us.", "svc.s.", "svc.p."} {
@@ -180,6 +180,8 @@ func newWorld(p Program) (*world, error) {
 		}))
 	s.Handle("s.$id", res.Group("shared"), res.GetModel(func(r res.ModelRequest) { touch(r); r.Model(map[string]int{"v": 1}) }),
 		res.Call("do", func(r res.CallRequest) { touch(r); r.Event("ping", nil); r.OK(nil) }))
+	s.Handle("t.$tag.$id", res.Group("tg.${tag}"), res.GetModel(func(r res.ModelRequest) { touch(r); r.Model(map[string]int{"v": 1}) }),
+		res.Call("do", func(r res.CallRequest) { touch(r); r.OK(nil) }))
 	s.Handle("p.$id", res.Parallel(true), res.GetModel(func(r res.ModelRequest) { atomic.AddInt64(&w.cbs, 1); r.Model(map[string]int{"v": 1}) }))
 	// store backed resources
 	w.mst = mockstore.NewStore()
@@ -526,7 +528,7 @@ func runProgram(p Program) (reports []report, cbs int64, families int, err error
 	return newRaceReports(), atomic.LoadInt64(&w.cbs), len(fam), nil
 }
 
-var rids = []string{"svc.r.1", "svc.r.2", "svc.r.3", "svc.s.1", "svc.s.2", "svc.p.1", "svc.ms.1", "svc.bs.1", "svc.us.1", "svc.bq", "svc.nosuch.1", "svc.nosuch.2", "svc.r.1", "svc.r.2"}
+var rids = []string{"svc.r.1", "svc.r.2", "svc.r.3", "svc.s.1", "svc.s.2", "svc.p.1", "svc.ms.1", "svc.bs.1", "svc.us.1", "svc.bq", "svc.nosuch.1", "svc.nosuch.2", "svc.r.1", "svc.r.2", "svc.t.a.1", "svc.t.b.1", "svc.t.a.2"}
 
 func genProgram() *rapid.Generator[Program] {
 	return rapid.Custom(func(t *rapid.T) Program {
